@@ -428,6 +428,12 @@ func Extra(name string) *DAG {
 		b := d.Blob("SBOM", "application/spdx+json", "{\"spdx\":1}")
 		m := d.Manifest("M", c, []int{l}, no())
 		d.Index("I", []int{m, b}, no())
+	case "index-chain": // an index that is only reachable through another index, over one manifest
+		c := d.Blob("C", MTConfig, "{}")
+		l := d.Blob("L", MTLayer, "l")
+		m := d.Manifest("M", c, []int{l}, no())
+		i1 := d.Index("I1", []int{m}, no())
+		d.Index("I2", []int{i1}, no())
 	case "many-referrers": // more pending predecessors at once than any small shape has (work-list growth)
 		c := d.Blob("C", MTConfig, "{}")
 		l := d.Blob("L", MTLayer, "l")
